@@ -478,7 +478,12 @@ def run(ck: Check):
         lits.append(out)
         reqs.append("jstr " + cps(s))
         real.append(canon(out))
-    ck.compare("string()", reqs, real, drv.ask(reqs))
+    model_replies = drv.ask(reqs)
+    ck.compare("string()", reqs, real, model_replies)
+    # gen/jstring.py accepts a source text by evaluating it against its Python mirror of the model on every code point:
+    # tie that mirror to the compiled Lean model (same requests)
+    from gen.jstring import model_string
+    ck.compare("gen/jstring.py model mirror vs Lean model", reqs, [cps(model_string(s)) for s in strings], model_replies)
     sub = strings[:len(corpus_strings()) + len(TRAPS)] + strings[-3000:] + [chr(c) for c in range(0, 0x10000, 97)]
     reqs2 = ["jstr " + cps(s) for s in sub]
     ck.compare("Writer.visit_constant", reqs2, [canon(real_visit_constant(s)) for s in sub], drv.ask(reqs2))
